@@ -66,3 +66,24 @@ Example C12_example_sequences :
   let w := VSet [varr [vstr [97; 39]; vbytes [1; 2]]; VTup [([97], vstr [98])]] in
   printable_all w = true /\ printable w = false /\ read_all (pr w) = Some (norm w).
 Proof. vm_compute. repeat split; reflexivity. Qed.
+
+(* ---------- whole values, token level, the full domain ---------- *)
+(* the same round trip for every value outside the open findings: strings with offsets, byte arrays in
+   both printed forms, arrays with offsets and holes included, nested in any way, in any member order *)
+Theorem C12_print_read_round_trip :
+  forall w rest, printable_all w = true -> follow_ok rest ->
+    read_tokens (pr w ++ rest) = Some (norm w, rest).
+Proof. exact read_print_tokens_all. Qed.
+Print Assumptions C12_print_read_round_trip.
+
+Theorem C12_canonical_value_reads_back :
+  forall v, Canon v -> printable_all v = true -> read_all (pr v) = Some v.
+Proof. exact read_print_canonical_all. Qed.
+Print Assumptions C12_canonical_value_reads_back.
+
+(* {2\[ 'a''', , <<1, 2>>], (a: -3\'b'), <<'xy'>>} : offsets, a hole, both byte-array forms *)
+Example C12_example_full :
+  let w := VSet [VSet [vpair n_item (vint 4) (vbytes [1; 2]); vpair n_item (vint 2) (vstr [97; 39])];
+                 VTup [([97], VSet [vpair n_char (vint (-3)) (vint 98)])]; vbytes [120; 121]] in
+  printable_all w = true /\ norm w <> w /\ read_all (pr w) = Some (norm w).
+Proof. vm_compute. repeat split; try reflexivity. discriminate. Qed.
